@@ -105,6 +105,7 @@ type COp struct {
 	I   int    `json:"i"`
 	B   bool   `json:"b"`
 	Mt  int64  `json:"mt"`
+	Of  string `json:"of"` // regalias: the name whose loaded template is registered under N
 	Obs CObs   `json:"obs"`
 }
 
@@ -143,6 +144,8 @@ type cacheWorld struct {
 	fs *fsLoader
 	// fs1: loader 1 as a FileSystemLoader (chain variant)
 	fs1 *fsLoader
+	// alias[a] = n: a was registered with the template loaded under n
+	alias map[string]string
 }
 
 func newCacheWorld(fs, chain, fschain, cl bool) *cacheWorld {
@@ -229,6 +232,9 @@ func (w *cacheWorld) apply(op *COp) (served int, msg string) {
 				name = parts[0]
 				fmt.Sscan(parts[1], &v)
 			}
+			if name != op.N && v != 0 && w.alias[op.N] == name {
+				return v + 30, ""
+			}
 			if name != op.N || v == 0 {
 				return -2, "unexpected output " + out
 			}
@@ -240,14 +246,26 @@ func (w *cacheWorld) apply(op *COp) (served int, msg string) {
 			return -3, err.Error()
 		}
 	case "register":
+		delete(w.alias, op.N)
 		if err := w.e.RegisterString(op.N, fmt.Sprintf("%s:%d", op.N, op.V)); err != nil {
 			return -2, err.Error()
 		}
+	case "regalias":
+		tm, err := w.e.Load(op.Of)
+		if err != nil {
+			return -2, err.Error()
+		}
+		w.e.RegisterTemplate(op.N, tm)
+		if w.alias == nil {
+			w.alias = map[string]string{}
+		}
+		w.alias[op.N] = op.Of
 	case "regcompiled":
 		lm := int64(4102444800) // far in the future
 		if op.B {
 			lm = 0
 		}
+		delete(w.alias, op.N)
 		ct := &twig.CompiledTemplate{Name: op.N, Source: fmt.Sprintf("%s:%d", op.N, op.V), LastModified: lm, CompileTime: 1}
 		if err := w.e.RegisterCompiledTemplate(ct); err != nil {
 			return -2, err.Error()
@@ -341,6 +359,8 @@ func describe(op *COp) string {
 		return fmt.Sprintf("register(%s,v%d)", op.N, op.V)
 	case "regcompiled":
 		return fmt.Sprintf("regcompiled(%s,v%d,old=%v)", op.N, op.V, op.B)
+	case "regalias":
+		return fmt.Sprintf("regalias(%s=%s)", op.N, op.Of)
 	case "put":
 		return fmt.Sprintf("put(L%d,%s,v%d,mt%d)", op.I, op.N, op.V, op.Mt)
 	case "delete":
@@ -385,7 +405,7 @@ func runCacheHist(c *CCase, rec *bufio.Writer, traceNo int) (res Result) {
 			}
 			if op.Op == "render" && want.Served == -3 {
 				open[op.N] = true
-			} else if (op.Op == "render" && want.Served > 0) || op.Op == "register" || op.Op == "regcompiled" {
+			} else if (op.Op == "render" && want.Served > 0) || op.Op == "register" || op.Op == "regcompiled" || op.Op == "regalias" {
 				delete(open, op.N)
 			}
 			if len(open) > 0 {
